@@ -129,3 +129,13 @@ func init() {
 		})
 	})
 }
+
+func init() {
+	// relation between two wire constants: one transaction's scripts are read into a single slab,
+	// so the slab must hold the largest witness item the decoder accepts.
+	extra("C08", func(p *Program, r *Report) {
+		ruleConstants(p, r, wirePkg, map[string]string{"scriptSlabSize": "4194304", "maxWitnessItemSize": "4000000", "maxWitnessItemsPerInput": "4000000",
+			"minTxInPayload": "41", "MinTxOutPayload": "9", "freeListMaxItems": "125"},
+			"btcd wire: slab (4 MiB) >= largest accepted witness item (4,000,000); minimum serialized sizes of an input (36+4+1) and output (8+1)")
+	})
+}
